@@ -44,11 +44,20 @@ def main():
         sys.exit(2)
     if model:
         model.close()
+    # the same commands evaluated by the extracted OCaml runner and inside Coq (vm_compute)
+    xc = getattr(mod, "xcheck_cmds", None)
+    extra = dict(getattr(mod, "EXTRA", None) or {})
+    if ok and xc is not None and replay is None:
+        n, bad = lib.coq_crosscheck(pid, xc(seed))
+        extra["extraction_crosscheck"] = {"commands": n, "mismatches": len(bad)}
+        if bad:
+            rep.violation({"crosscheck": bad[:3]}, {"note": "extracted runner and vm_compute disagree"},
+                          kind="extraction-crosscheck")
     if proof["broken"] and not rep.violations:
         rep.violation({"proof": proof["broken"]}, {"theorems": proof["theorems"], "note":
                       "a proof obligation / the build no longer checks; the numeric search found no failing input"},
                       kind="proof-obligation")
-    rc = rep.finish(proof, getattr(mod, "RULE", ""), extra=getattr(mod, "EXTRA", None),
+    rc = rep.finish(proof, getattr(mod, "RULE", ""), extra=extra,
                     assumptions=getattr(mod, "ASSUMPTIONS", []))
     sys.exit(rc)
 
